@@ -343,3 +343,24 @@ package apicodec
 //@       mathint(result0.(*codecV2).endKey[0]) * 16777216 + mathint(result0.(*codecV2).endKey[1]) * 65536 + mathint(result0.(*codecV2).endKey[2]) * 256 + mathint(result0.(*codecV2).endKey[3]) ==
 //@       mathint(result0.(*codecV2).prefix[0]) * 16777216 + mathint(result0.(*codecV2).prefix[1]) * 65536 + mathint(result0.(*codecV2).prefix[2]) * 256 + mathint(result0.(*codecV2).prefix[3]) + 1
 //@   ensures modes: result1 == nil ==> mode == ModeRaw || mode == ModeTxn
+
+// The range a coprocessor response carries is decoded as a RANGE (an end equal to the keyspace end means "unbounded" and
+// comes back empty), in place.
+//@ func (*codecV2) decodeCopRange
+//@   prop C15
+//@   bytes: key
+//@   may-panic
+//@   requires ksOK(c)
+//@   at call(DecodeRange) assert whole: arg0 == r.Start && arg1 == r.End
+//@   ensures same: r != nil && result1 == nil ==> result0 == r
+
+// Bucket keys of a region: the last bucket key closes the list as "unbounded" (empty) when it is empty or lies at or
+// beyond the keyspace end - in particular exactly AT the keyspace end, the normal case for the keyspace's last region.
+//@ func (*codecV2) DecodeBucketKeys
+//@   prop C15
+//@   bytes: key
+//@   may-panic
+//@   requires ksOK(c)
+//@   opaque-callee decodeKey
+//@   loop 1 invariant idx: -1 <= rangeindex && rangeindex < len(keys)
+//@   loop 1 step closing: rangeindex == len(keys) - 1 && rangeindex > 0 && (k == "" || k >= c.endKey) ==> len(ks) == prev(len(ks)) + 1 && ks[len(ks)-1] == ""
